@@ -37,6 +37,27 @@ type fnResult struct {
 	entryVerdict string
 }
 
+// clauseHasProp: some clause of the contract is tagged with the property although the function as a
+// whole is not (only those clauses are then obligations of that property).
+func clauseHasProp(fs *FuncSpec, id string) bool {
+	for _, c := range fs.Ensures {
+		if len(c.Props) > 0 && hasProp(c.Props, id) {
+			return true
+		}
+	}
+	for _, c := range fs.CheckAts {
+		if len(c.Props) > 0 && hasProp(c.Props, id) {
+			return true
+		}
+	}
+	for _, c := range fs.Preserves {
+		if len(c.Props) > 0 && hasProp(c.Props, id) {
+			return true
+		}
+	}
+	return false
+}
+
 func hasProp(props []string, id string) bool {
 	if id == "" {
 		return true
@@ -282,7 +303,7 @@ func main() {
 		if fs.Trusted || fs.PreOnly || fs.PkgPath == "" {
 			continue
 		}
-		if !hasProp(fs.Props, *property) {
+		if !hasProp(fs.Props, *property) && !clauseHasProp(fs, *property) {
 			continue
 		}
 		if fre != nil && !fre.MatchString(fs.Key) {
